@@ -169,6 +169,13 @@ namespace vr
         int max_samples    = 2;
         std::set<uint64_t> outcome_shown;
         uint64_t case_violations = 0;
+        int efd                  = -1; // this worker's stderr file (sanitizer reports)
+        off_t epos               = 0;
+        bool san_fatal           = false;
+
+        // turn sanitizer output produced since the last call into violations of the current case,
+        // attributed to the input named by the current note; cheap enough to call after every input
+        inline void poll_reports();
 
         std::atomic<uint64_t>& counter(const char* name)
         {
@@ -453,13 +460,25 @@ namespace vr
             }
             else if ((p = l.find(": runtime error: ")) != std::string::npos)
             {
-                if (l.find("hinnant-date") != std::string::npos)
-                    continue; // third-party date library, not pistache code
                 std::string file = l.substr(0, p);
-                size_t sl        = file.rfind('/');
+                // with print_stacktrace=1 the frames follow; blame the first frame outside the C++ runtime
+                size_t end = i + 1;
+                std::string blame;
+                while (end < lines.size() && lines[end].find("    #") == 0)
+                {
+                    const std::string& x = lines[end];
+                    size_t sp            = x.rfind(' ');
+                    std::string loc      = sp == std::string::npos ? "" : x.substr(sp + 1);
+                    if (blame.empty() && loc.find('/') != std::string::npos && loc.find("/usr/include/") == std::string::npos && loc.find("libsanitizer") == std::string::npos && loc.find("/usr/lib/") == std::string::npos)
+                        blame = loc;
+                    ++end;
+                }
+                if (!blame.empty())
+                    file = blame;
+                size_t sl = file.rfind('/');
                 if (sl != std::string::npos)
                     file = file.substr(sl + 1);
-                size_t c1 = file.find(':');
+                size_t c1            = file.find(':');
                 std::string fileonly = c1 == std::string::npos ? file : file.substr(0, c1);
                 std::string msg = l.substr(p + 17), m2;
                 // numbers in the message vary with the input; keep the shape only
@@ -479,9 +498,11 @@ namespace vr
                     }
                 }
                 Report r;
-                r.sig  = "ubsan:" + fileonly + ":" + m2;
-                r.text = l;
+                r.sig = "ubsan:" + fileonly + ":" + m2;
+                for (size_t k = i; k < end && k < i + 10; ++k)
+                    r.text += lines[k] + "\n";
                 out.push_back(r);
+                i = end - 1;
             }
             else if (l.find("WARNING: ThreadSanitizer: ") != std::string::npos)
             {
@@ -543,6 +564,25 @@ namespace vr
         return s;
     }
 
+    inline void Ctx::poll_reports()
+    {
+        if (efd < 0)
+            return;
+        struct stat st;
+        if (fstat(efd, &st) != 0 || st.st_size <= epos)
+            return;
+        std::string txt = read_from(efd, epos);
+        epos            = st.st_size;
+        auto reps       = scan_reports(txt);
+        std::set<std::string> seen;
+        for (auto& r : reps)
+        {
+            if (seen.insert(r.sig).second)
+                violation(r.sig, "{\"sanitizer\":" + jstr(r.text) + ",\"case\":" + jstr(shm->slots[worker].note) + "}");
+            san_fatal |= r.fatal_for_worker;
+        }
+    }
+
     // ---- the runner ---------------------------------------------------------------------------
     struct Runner
     {
@@ -590,7 +630,8 @@ namespace vr
             init_ctx(c, w);
             c.logfd   = open(logp.c_str(), O_WRONLY | O_CREAT | O_APPEND, 0644);
             auto& sl  = shm->slots[w];
-            off_t pos = lseek(efd, 0, SEEK_END);
+            c.efd  = efd;
+            c.epos = lseek(efd, 0, SEEK_END);
             for (uint64_t idx = start; idx < ncases && idx < opt.last; idx += single ? ncases : opt.jobs)
             {
                 if (shm->stop.load())
@@ -603,27 +644,12 @@ namespace vr
                 c.idx             = idx;
                 c.case_violations = 0;
                 fn(idx, c);
+                c.poll_reports();
                 sl.active.store(0);
                 shm->cases_done.fetch_add(1);
                 sl.next.store(idx + (single ? 0 : opt.jobs));
-                struct stat st;
-                fstat(efd, &st);
-                if (st.st_size > pos)
-                {
-                    std::string txt = read_from(efd, pos);
-                    pos             = st.st_size;
-                    bool fatal      = false;
-                    auto reps       = scan_reports(txt);
-                    std::set<std::string> seen;
-                    for (auto& r : reps)
-                    {
-                        if (seen.insert(r.sig).second)
-                            c.violation(r.sig, "{\"sanitizer\":" + jstr(r.text) + ",\"case\":" + jstr(sl.note) + "}");
-                        fatal |= r.fatal_for_worker;
-                    }
-                    if (fatal && !single)
-                        _exit(77); // memory may be damaged: continue in a fresh process
-                }
+                if (c.san_fatal && !single)
+                    _exit(77); // memory may be damaged: continue in a fresh process
                 if (single)
                     break;
             }
